@@ -233,15 +233,31 @@ class PairCase(Case):
           # clamp_max without the closing increment etc.: the derived kernel already has nk rows otherwise
           cl.append(('derived-kernel-has-one-row-per-keypoint[u%d]' % u, E.FALSE))
           continue
-        kerasc.WEIGHT_PROVIDER[0] = lambda layer, name, shape, dt, init, cons: kern
+        # the layer holds the corresponding missing output too: the fixed value, or (derived)
+        # output_min + sigmoid(last output parameter) * (output_max - output_min)   [property text]
+        lkw = dict(input_keypoints=kps, units=1)
+        miss_w = None
+        if kw['missing']:
+          lkw.update(impute_missing=True, missing_input_value=args['missing_input_value'])
+          if kw['missing'] == 'fixed':
+            lkw['missing_output_value'] = args['missing_output_value']
+          else:
+            q = tfc.Tensor(np.array([[P.lift(args['keypoint_output_parameters'].a[0, u, -1])]], dtype=object), tfc.float32)
+            lo_, hi_ = args['keypoint_output_min'], args['keypoint_output_max']
+            miss_w = tfc.add(tfc.multiply(tfc.sigmoid(q), hi_ - lo_), lo_)
+        kerasc.WEIGHT_PROVIDER[0] = lambda layer, name, shape, dt, init, cons: (miss_w if 'missing' in name else kern)
         try:
-          layer = ly.PWLCalibration(input_keypoints=kps, units=1)
+          layer = ly.PWLCalibration(**lkw)
           layer.build(tfc.TensorShape([None, 1]))
         finally:
           kerasc.WEIGHT_PROVIDER[0] = None
         lo = layer.call(x)
         for b in range(2):
           cl += _eq('pwl_calibration_fn==PWLCalibration[%d,u%d]' % (b, u), out.a[b, u], lo.a[b, 0])
+        if kw['missing']:
+          xm = tfc.convert_to_tensor([[args['missing_input_value']]], dtype=tfc.float32)
+          fm = cp.pwl_calibration_fn(inputs=xm, **args)
+          cl += _eq('pwl_calibration_fn==PWLCalibration-at-the-missing-input[u%d]' % u, fm.a[0, u], layer.call(xm).a[0, 0])
     elif t == 'parallel':
       import props.C05 as C05
       pc = load.mod('parallel_combination_layer')
@@ -340,7 +356,7 @@ def configs(tier, rng):
     if kw['reduction'] in ('mean', 'none'):
       jobs.append(('pair', dict(pair='cdf_fn_vs_layer', kw=kw)))
   for kw in C15.pwl_fn_configs(tier):
-    if kw['missing'] is None and not kw['is_cyclic']:
+    if not kw['is_cyclic']:
       jobs.append(('pair', dict(pair='pwl_fn_vs_layer', kw=kw)))
   jobs.append(('pair', dict(pair='parallel')))
   for kw in (dict(num_lattices=2, rank=2, n_unc=3), dict(num_lattices=3, rank=2, n_unc=2, n_inc=2),
